@@ -244,7 +244,7 @@ def floyd_warshall_facade(adj, *a, **k):
         adj = symnp.concretize_array(adj)
     r = fw(adj, *a, **k)
     # returned as a facade array so that a (possibly symbolic) mask used to index it is concretised
-    return r.astype(object).view(symnp.SymArray)
+    return r.view(symnp.SymArray)
 
 
 def cdist_facade(a, b, *args, **kw):
